@@ -5,6 +5,6 @@ ROOT="$(cd "$(dirname "$0")/.." && pwd)"
 [ -n "$(git -C "${VERIF_REPO:-/repo}" status --porcelain)" ] && { echo "/repo not clean"; exit 2; }
 git -C "${VERIF_REPO:-/repo}" apply "$patch" || { echo "patch does not apply"; exit 2; }
 "$ROOT/tools/runall.sh" quick "$@"; r=$?
-git -C "${VERIF_REPO:-/repo}" checkout -q -- .
+git -C "${VERIF_REPO:-/repo}" checkout -q -- . ; git -C "${VERIF_REPO:-/repo}" clean -fdq
 git -C "${VERIF_REPO:-/repo}" clean -fdq 2>/dev/null
 exit $r
